@@ -8,6 +8,7 @@
 //!                      ["poll_wake",d]   poll(None) entered first, wake() from another thread d ms later
 //!                      ["poll_winch",d]  poll(None) entered first, SIGWINCH sent to this thread d ms later (EINTR in select)
 //!                      ["hup"]           the peer closes the master side
+//!                      ["settled"]       nothing may be owed any more (after the trailing polls of a generated script)
 //!                      ["eagain",n]      the next n writes of the terminal object to the tty fail with EAGAIN (verif-hooks
 //!                                        fault script; consumed by the next poll, which reports how many it used)],
 //!              "end":"drop"|"drop_paused"|"run_err"|"render_quit"}
@@ -120,6 +121,7 @@ pub fn run_script(input: &Value) -> Case {
     let mut term_kind: Option<u64> = None;
     let mut hung_up = false;
     let main_thread = unsafe { libc::pthread_self() } as usize;
+    let mut late = false;
     {
         let term = sess.term.as_mut().unwrap();
         let peer = sess.peer.as_ref().unwrap();
@@ -187,6 +189,7 @@ pub fn run_script(input: &Value) -> Case {
                     peer.pause(p); // acknowledged by the peer thread
                     acts_coq.push(format!("APause {}", cbool(p)));
                 }
+                "settled" => acts_coq.push("ASettled".into()),
                 "eagain" => {
                     let n = a[1].as_u64().unwrap_or(1) as usize;
                     surf_n_term::unix_verif::set_write_script(vec![surf_n_term::unix_verif::WriteFault::WouldBlock; n]);
@@ -254,6 +257,11 @@ pub fn run_script(input: &Value) -> Case {
                         }
                     });
                     let elapsed = t0.elapsed().as_millis() as u64;
+                    // later than scripted by more than scheduling noise explains on an idle machine?
+                    let base = if ms >= 0 { ms as u64 } else { delay };
+                    if elapsed > base + base / 4 + 80 {
+                        late = true;
+                    }
                     // how often the loop went round on a tty that was reported writable and took nothing
                     let spins = surf_n_term::unix_verif::write_fault_counts()[2] - eagain0;
                     surf_n_term::unix_verif::set_write_script(vec![]);
@@ -317,6 +325,9 @@ pub fn run_script(input: &Value) -> Case {
     let has = |needle: &[u8]| tail.windows(needle.len()).any(|w| w == needle);
     // (once the settings are restored the tty echoes the peer's late answer, so the request need not be last)
     let closing = has(b"\x1b[?1003l") && has(b"\x1b[?1006l") && has(b"\x1b[?1000l") && has(b"\x1b[?25h") && has(b"\x1b[c");
+    if late {
+        tags.push("late".into());
+    }
     tags.push(format!("end={}", if hung_up { "hup" } else { &end }));
     tags.push(format!("polls={}", match npolls { 0 => "0", 1..=3 => "1-3", 4..=8 => "4-8", _ => ">8" }));
     for k in &kinds {
@@ -481,7 +492,68 @@ fn run_escsize(input: &Value) -> Case {
     let winches = input["winches"].as_u64().unwrap_or(1);
     let (mut resizes, mut others, mut polls) = (0u64, 0u64, 0u64);
     let mut kinds = vec![];
-    for _ in 0..winches {
+    let backlog = input["backlog"].as_bool().unwrap_or(false);
+    let mut render = json!(null);
+    if backlog {
+        // the render loop of terminal.rs with the peer stalled: more than 32 frames pile up, SIGWINCH arrives,
+        // the poll that handles it queues the size query and times out, run_render drops the pending frames.
+        // The peer resumes: the Resize event must still come.
+        let mut raised = 0u64;
+        let mut max_pending = 0usize;
+        let mut dropped = false;
+        let mut iters = 0u64;
+        let t0 = Instant::now();
+        let mut t_resume: Option<Instant> = None;
+        let peer_ref = &peer;
+        let r: Result<bool, surf_n_term::Error> = term.run_render(|t, e, _s| {
+            iters += 1;
+            if iters == 1 {
+                peer_ref.pause(true);
+                let _ = t.write_all(&vec![b'.'; 200_000]);
+            }
+            match e {
+                Some(TerminalEvent::Resize(_)) => {
+                    resizes += 1;
+                    return Ok(surf_n_term::TerminalAction::Quit(true));
+                }
+                Some(TerminalEvent::Size(_)) | None => {}
+                Some(_) => others += 1,
+            }
+            let p = t.frames_pending();
+            if !dropped && p < max_pending {
+                // run_render has just dropped the backlog: the peer resumes
+                dropped = true;
+                peer_ref.pause(false);
+                t_resume = Some(Instant::now());
+            }
+            max_pending = max_pending.max(p);
+            if !dropped && p >= 30 {
+                unsafe { libc::raise(libc::SIGWINCH) };
+                raised += 1;
+            }
+            // every iteration draws something, so every iteration queues a frame
+            let _ = write!(t, "frame {}", iters);
+            let over = match t_resume {
+                Some(tr) => tr.elapsed() > Duration::from_millis(1500),
+                None => t0.elapsed() > Duration::from_secs(8),
+            };
+            if over {
+                return Ok(surf_n_term::TerminalAction::Quit(false));
+            }
+            Ok(surf_n_term::TerminalAction::Sleep(Duration::from_millis(2)))
+        });
+        polls = iters;
+        if r.is_err() {
+            others += 100;
+        }
+        if !dropped || raised == 0 {
+            others += 1000; // the scenario did not get to the drop
+        }
+        render = json!({"iterations": iters, "sigwinch_raised_before_the_drop": raised, "max_frames_pending": max_pending,
+                        "frames_dropped": dropped, "result": format!("{:?}", r)});
+        peer.pause(false);
+    }
+    for _ in 0..(if backlog { 0 } else { winches }) {
         unsafe { libc::raise(libc::SIGWINCH) };
         // the answer needs a round trip through the peer thread
         let t0 = Instant::now();
@@ -518,11 +590,11 @@ fn run_escsize(input: &Value) -> Case {
         (Some(b), Some(a)) => termios_key(b) == termios_key(a),
         _ => false,
     };
-    j["impl"] = json!({"escape_size_mode": size_mode, "resize_events": resizes, "other_events": others, "polls": polls, "kinds": kinds, "restored": restored});
+    j["impl"] = json!({"escape_size_mode": size_mode, "resize_events": resizes, "other_events": others, "polls": polls, "kinds": kinds, "restored": restored, "render_loop": render});
     Case {
         coq: format!("CE {} {} {} {}", winches, resizes, others, cbool(size_mode && restored)),
         json: j,
-        tags: vec!["escsize".into()],
+        tags: vec![if backlog { "escsize_backlog".into() } else { "escsize".into() }],
         nontrivial: true,
     }
 }
@@ -542,7 +614,19 @@ pub fn run(input: &Value) -> Case {
         c.tags.push("blocked_wake".into());
         c
     } else {
-        run_script(input)
+        // the timing checks are tight (Corr/C17Corr.v `timely`); a session that was late is run again, twice at
+        // most: scheduling noise of a loaded machine does not repeat, a poll that waits for the wrong thing does
+        let mut c = run_script(input);
+        for attempt in 1..3 {
+            if !c.tags.iter().any(|t| t == "late") || c.tags.iter().any(|t| t == "infra-error") {
+                break;
+            }
+            let mut again = run_script(input);
+            again.json["impl"]["rerun_after_late_session"] = json!(attempt);
+            c = again;
+        }
+        c.tags.retain(|t| t != "late");
+        c
     }
 }
 
@@ -595,9 +679,10 @@ fn gen_script(rng: &mut Rng) -> Value {
             62..=66 => {
                 // a request that arrives while this thread sits in an infinite poll: only when nothing else can be
                 // outstanding, so that the latency measured is the request's
-                if quiet && owed == 0 && !paused {
+                if quiet && owed == 0 {
                     let d = 2 + rng.below(30);
-                    acts.push(json!([if rng.chance(2, 3) { "poll_wake" } else { "poll_winch" }, d]));
+                    // with the peer stalled only a wake request is certain to end an infinite poll
+                    acts.push(json!([if rng.chance(2, 3) || paused { "poll_wake" } else { "poll_winch" }, d]));
                 } else {
                     acts.push(json!(["poll", 0]));
                     owed = owed.saturating_sub(1);
@@ -620,10 +705,12 @@ fn gen_script(rng: &mut Rng) -> Value {
         quiet = owed == 0;
         let _ = since;
     }
-    // trailing polls so that what is pending gets observed
-    for _ in 0..rng.below(5) {
+    // trailing polls so that what is pending gets observed: one more than the events that can still come, so a
+    // request that was lost shows up as a poll returning nothing while it is owed; after them nothing may be owed
+    for _ in 0..(owed + 1 + rng.below(3) as usize) {
         acts.push(json!(["poll", 0]));
     }
+    acts.push(json!(["settled"]));
     let end = match rng.below(12) {
         0 => "run_err",
         1 => "render_quit",
@@ -654,10 +741,13 @@ pub fn generate(rng: &mut Rng, n: usize, _tier: &str) -> Vec<Value> {
     v.push(json!({"stress": {"threads": 4, "wakes": 300}}));
     v.push(json!({"blocked_wake": true}));
     v.push(json!({"escsize": true, "winches": 2}));
+    v.push(json!({"escsize": true, "backlog": true, "winches": 1}));
     // (corpus/C17: failed open, event flood at drop, a key arriving during a 1 MiB frame)
     // ... with the peer stalled only a wake request cuts the wait short, the key follows it
     v.push(json!({"acts": [["pause", true], ["write", 200000], ["in", "k"], ["wake", 1], ["poll", -1], ["poll", 20], ["pause", false], ["poll", 5]], "end": "drop"}));
     v.push(json!({"acts": [["poll_wake", 20], ["poll", 0], ["poll_winch", 15], ["poll", 0]], "end": "drop"}));
+    // the wake request arrives while poll(None) sleeps in select with the output stalled (the path of afe2796)
+    v.push(json!({"acts": [["pause", true], ["write", 300000], ["poll_wake", 20], ["poll", 0], ["pause", false], ["poll", 5], ["poll", 0]], "end": "drop"}));
     v.push(json!({"acts": [["write", 9000], ["wake", 2], ["eagain", 500], ["poll", -1], ["poll", 0], ["poll", 3]], "end": "drop"}));
     v.push(json!({"acts": [["write", 3000], ["in", "ab"], ["poll", 0], ["write", 50], ["eagain", 400], ["poll", 20], ["poll", 0], ["poll", 0]], "end": "drop"}));
     v.push(json!({"acts": [["in", "k"], ["hup"], ["poll", 0], ["poll", 0]], "end": "drop"}));
